@@ -543,7 +543,44 @@ pub fn run_program(src: &str, only: Option<(&str, &[Vec<V>])>, nvec: usize, rng:
                 } else if unsupported || defs.iter().any(|d| d.contains_head("unsupported")) {
                     "unsupported".to_string()
                 } else {
-                    format!("ast {} ;; run {}", defs.iter().map(|d| d.show()).collect::<Vec<_>>().join(" "), run_text)
+                    // the emitted tree under the C++/Metal reading, called as code outside the module would call it
+                    let me = MslEval::new(items, false);
+                    let statics: Vec<(String, V)> = p.globals.iter().filter(|g| g.param_mode).map(|g| (g.name.clone(), g.init)).collect();
+                    let msl_text = vectors
+                        .iter()
+                        .map(|v| {
+                            let top: Vec<TopArg> =
+                                params.iter().zip(v).map(|((d, _), x)| if *d == 0 { TopArg::Val(*x) } else { TopArg::Var(*x) }).collect();
+                            let got = me.run(emitted_name, &top, &statics);
+                            msleval::take_stuck();
+                            match got {
+                                None => "none".to_string(),
+                                Some((ret, finals, gl)) => {
+                                    let mut k = 0;
+                                    let gs: Vec<String> = p
+                                        .globals
+                                        .iter()
+                                        .map(|g| {
+                                            if g.param_mode {
+                                                k += 1;
+                                                gl[k - 1].show()
+                                            } else {
+                                                g.init.show()
+                                            }
+                                        })
+                                        .collect();
+                                    format!(
+                                        "r={} o={} g={}",
+                                        ret.show(),
+                                        finals.iter().flatten().map(|x| x.show()).collect::<Vec<_>>().join(","),
+                                        gs.join(",")
+                                    )
+                                }
+                            }
+                        })
+                        .collect::<Vec<_>>()
+                        .join(" | ");
+                    format!("ast {} ;; run {} ;; msl {}", defs.iter().map(|d| d.show()).collect::<Vec<_>>().join(" "), run_text, msl_text)
                 }
             }
             (Err(pn), _) => {
